@@ -178,7 +178,7 @@ func H_C04_late() {
 	a, b := nondetU16("new.a"), nondetU16("new.b")
 	s.offsets = newOffsetsMap()
 	s.dirtyOffsets = newDirtyMap()
-	s.dirtySeqNos = newDirtySeqMap()
+	s.resetDirtySeqNos()
 	s.anyDirtyOffset = false
 	s.vbIDRange = &models.VbIDRange{Start: a, End: b}
 	tracked := len(fc.tracked)
